@@ -74,6 +74,30 @@ fn std_part(ctx: &Ctx, thorough: bool) {
                         judge_std(ctx, "MmapRegion::build(file)", res, &log, must_fail, size, prot, flags, Some((f.as_raw_fd(), off)), &rp);
                     }
                 }
+                // the builder with every option it has, incl. the hugetlbfs hint (a hint never
+                // changes what is safe to map)
+                for huge in [None, Some(false), Some(true)] {
+                    use vm_memory::mmap::MmapRegionBuilder;
+                    ctx.case(true);
+                    let end = off.checked_add(size as u64);
+                    let must_fail = end.is_none() || end.unwrap() > flen;
+                    let fo = FileOffset::new(f.try_clone().unwrap(), off);
+                    let (prot, flags) = (libc::PROT_READ | libc::PROT_WRITE, libc::MAP_NORESERVE | libc::MAP_SHARED);
+                    let rp = || json!({"api": "MmapRegionBuilder", "file_len": flen, "offset": off, "size": size, "hugetlbfs": huge});
+                    let (res, log) = record_maps(|| {
+                        let mut b = MmapRegionBuilder::<()>::new(size).with_file_offset(fo).with_mmap_prot(prot).with_mmap_flags(flags);
+                        if let Some(h) = huge {
+                            b = b.with_hugetlbfs(h);
+                        }
+                        b.build()
+                    });
+                    if let Ok(r) = &res {
+                        if r.is_hugetlbfs() != huge {
+                            fail(ctx, "C15/std/MmapRegionBuilder/attributes-do-not-echo-the-request", format!("hugetlbfs {:?} vs requested {:?}", r.is_hugetlbfs(), huge), rp());
+                        }
+                    }
+                    judge_std(ctx, "MmapRegionBuilder", res, &log, must_fail, size, prot, flags, Some((f.as_raw_fd(), off)), &rp);
+                }
                 // the convenience constructor for shared file mappings
                 ctx.case(true);
                 let end = off.checked_add(size as u64);
@@ -285,7 +309,9 @@ fn xen_part(ctx: &Ctx, _thorough: bool) {
     for &w in &words {
         for file_kind in 0..3 {
             // 0: no file, 1: device file at offset 0, 2: device file at offset 4096
-            for size in [4096usize, 8192, 100] {
+            // (the device file has 64 pages: the last two sizes run past its end)
+            for size in [4096usize, 8192, 100, 64 * 4096, 64 * 4096 + 1, 65 * 4096] {
+              for huge in [None, Some(false), Some(true)] {
                 for inject in 0..3 {
                     // 0: none, 1: ioctl failure, 2: mmap failure
                     // an injected failure only matters where the construction makes that call
@@ -304,17 +330,27 @@ fn xen_part(ctx: &Ctx, _thorough: bool) {
                         _ => Some(emu.file_offset(4096)),
                     };
                     let base = GuestAddress(0x8000);
-                    let range = MmapRange::new(size, fo, base, w, 7);
+                    let mut range = MmapRange::new(size, fo, base, w, 7);
+                    if let Some(h) = huge {
+                        range.set_hugetlbfs(h);
+                    }
                     let is_valid = valid.contains(&w);
                     let needs_dev = w & 0x3 != 0;
-                    let must_fail = !is_valid || (needs_dev && file_kind != 1);
+                    // a plain (UNIX) file mapping may not run past the end of the file
+                    let file_start = if file_kind == 2 { 4096usize } else { 0 };
+                    let past_eof = file_kind != 0 && file_start + size > 64 * 4096;
+                    if past_eof && w != 0 {
+                        // device mappings have no file length to check against: not judged
+                        continue;
+                    }
+                    let must_fail = !is_valid || (needs_dev && file_kind != 1) || past_eof;
                     emu.take_log();
                     {
                         let mut st = emu.state.borrow_mut();
                         st.fail_privcmd = inject == 1;
                         st.fail_map_in = if inject == 1 { Some(0) } else { None };
                     }
-                    let rp = || json!({"mmap_flags": format!("{:#x}", w), "file": file_kind, "size": size, "inject": inject});
+                    let rp = || json!({"mmap_flags": format!("{:#x}", w), "file": file_kind, "size": size, "inject": inject, "hugetlbfs": huge});
                     let (res, log) = record_maps(|| {
                         if inject == 2 {
                             fail_mmap_in(0);
@@ -367,6 +403,7 @@ fn xen_part(ctx: &Ctx, _thorough: bool) {
                         fail(ctx, "C15/xen/device-protocol", format!("{:?}", pe), rp());
                     }
                 }
+              }
             }
         }
     }
@@ -433,7 +470,7 @@ fn xen_part(ctx: &Ctx, _thorough: bool) {
 
 pub fn run(tier: Tier, replay: Option<String>) -> i32 {
     let ctx = crate::new_ctx("C15", tier, "fault_enumeration", &replay);
-    ctx.set_rule("Unix build: file lengths {0,1,4095,4096,4097,8192,12288} x offsets {0,1,4096,len-1,len,len+1,2^64-4096,2^64-1} x sizes {0,1,4096,rest-1,rest,rest+1,isize::MAX,usize::MAX} x all 32 subsets of {PRIVATE,SHARED,ANONYMOUS,NORESERVE,FIXED} (x 3 protections in the thorough tier) through MmapRegion::build / from_file / GuestRegionMmap::from_range, anonymous requests, injected mmap failure, build_raw with pointers at page offset {0,1,8,2048,4095} with and without a backing file, guest bases within +-2 of the top of the address space, byte-by-byte coherence of shared file regions in both directions. Xen build: all 256 low mmap-flag bytes plus every single high bit (alone and combined with GRANT) x {no file, device file at offset 0, at offset 4096} x sizes x injected {none, ioctl failure, mmap failure} on the emulated gntdev/privcmd. Oracle: the statement's acceptance predicate (must fail: MAP_FIXED - which must not even reach the kernel -, overflowing or past-EOF file range, misaligned raw pointer, end beyond the address space, unknown/contradictory Xen type bits, missing file or non-zero offset for foreign/grant; safe requests the OS refuses may fail too); on success the attributes echo the request and exactly one mapping with the requested arguments was made; on failure the interposed mapping log (and the device) show nothing left mapped. One case = one request; all non-trivial; distinct by construction.");
+    ctx.set_rule("Unix build: file lengths {0,1,4095,4096,4097,8192,12288} x offsets {0,1,4096,len-1,len,len+1,2^64-4096,2^64-1} x sizes {0,1,4096,rest-1,rest,rest+1,isize::MAX,usize::MAX} x all 32 subsets of {PRIVATE,SHARED,ANONYMOUS,NORESERVE,FIXED} (x 3 protections in the thorough tier) through MmapRegion::build / from_file / GuestRegionMmap::from_range and the builder with the hugetlbfs hint {unset, false, true}, anonymous requests, injected mmap failure, build_raw with pointers at page offset {0,1,8,2048,4095} with and without a backing file, guest bases within +-2 of the top of the address space, byte-by-byte coherence of shared file regions in both directions. Xen build: all 256 low mmap-flag bytes plus every single high bit (alone and combined with GRANT) x {no file, device file at offset 0, at offset 4096} x sizes (incl. past the end of the file for plain file mappings) x hugetlbfs hint {unset, false, true} x injected {none, ioctl failure, mmap failure} on the emulated gntdev/privcmd. Oracle: the statement's acceptance predicate (must fail: MAP_FIXED - which must not even reach the kernel -, overflowing or past-EOF file range, misaligned raw pointer, end beyond the address space, unknown/contradictory Xen type bits, missing file or non-zero offset for foreign/grant; safe requests the OS refuses may fail too); on success the attributes echo the request and exactly one mapping with the requested arguments was made; on failure the interposed mapping log (and the device) show nothing left mapped. One case = one request; all non-trivial; distinct by construction.");
     ctx.assume("mmap/munmap/ioctl are observed and faulted through link-time interposition; gntdev/privcmd are emulated");
     if ctx.replay_of.is_some() {
         println!("replay: deterministic enumeration; re-running it");
